@@ -83,15 +83,34 @@ def corpus(tier):
     # another client that opens its upstream at several relative offsets, plus a third connection afterwards
     nb = [sc for sc in c05.neighbour_scenarios('quick') if sc.mode == 'local']
     take(nb, lambda sc: sc.name.split('@')[-1] in (('3', '8', '9') if q else ('2', '3', '5', '7', '8', '9', '10', '12')), 18 if q else 96)
+    # an idle connection beside a busy one (--timeout 1, busy iterations priced): the idle client comes back after
+    # three seconds -- every mode must have reaped it by then
+    half = b'GET http://h.test/late HTTP/1.1\r\nHost: h.te'
+    rest = b'st\r\n\r\n'
+    con = b'CONNECT t.test:443 HTTP/1.1\r\nHost: t.test:443\r\n\r\n'
+    ack = b'HTTP/1.1 200 Connection established\r\n\r\n'
+    for nm, first in (('idle-first', True), ('busy-first', False)):
+        idle = dict(script=[('send', half), ('sleep', 3.0), ('send', rest), ('wait_idle',)], start_turn=0 if first else 1)
+        busy = dict(script=[('send', con), ('wait_recv', len(ack) + 5)] + [('send', b'x')] * 400 + [('wait_eof',)],
+                    start_turn=1 if first else 0)
+        out.append(Scenario('timed/idle-beside-busy/%s' % nm, ['--threadless', '--timeout', '1'], mode='local',
+                            clients=[idle, busy] if first else [busy, idle],
+                            origins={('10.0.0.1', 80): lambda: HttpOrigin([], respond=lambda c, k, r: [b'HTTP/1.1 200 OK\r\nContent-Length: 2\r\n\r\nok']),
+                                     ('10.0.0.2', 443): lambda: RawOrigin(greeting=[b'hello'])},
+                            dns={'h.test': '10.0.0.1', 't.test': '10.0.0.2'}, kinds='', horizon=6000, min_time=7.5,
+                            features={'role': 'timed_neighbour', '_dt_busy': 0.01, '_bound': 0}))
     # de-duplicate by name, make mode-neutral
     uniq = {}
     for s in out:
         s2 = copy.copy(s)
-        s2.features = {k: v for k, v in s.features.items() if not k.startswith('_') or k == '_sockbuf'}
+        s2.features = {k: v for k, v in s.features.items() if not k.startswith('_') or k in ('_sockbuf', '_dt_busy')}
         s2.features['origin_check'] = s.name.split('/')[0]
         s2.kinds = ('ARS' if 'D' not in s.kinds else 'D') if s.features.get('role') != 'tls_front' else 'A'
         if s.features.get('role') == 'neighbour':
             s2.kinds = 'AE'
+        if s.features.get('role') == 'timed_neighbour':
+            s2.kinds = ''
+            s2.features['_bound'] = 0
         if s.features.get('class') == 'big' or 'big' in s.name.split('/'):
             # the full-size transfer has ~300 alternatives per execution and each execution moves 200 KiB:
             # d <= 2 on it is C01's job (one mode); the three-mode differential keeps it at d <= 1
@@ -133,6 +152,7 @@ def _unit(i):
         w0 = netmc.execute(remode(base, 'local'), ())
         if sum(p.n - 1 for p in w0.points) > 120:
             bound = 1
+    multi = len(base.clients) > 1
     for mode in modes:
         scn = remode(base, mode)
         outcomes = {}
@@ -145,7 +165,37 @@ def _unit(i):
         st, _ = netmc.explore(scn, bound, chk)
         res[mode] = outcomes
         stats[mode] = (st.executions, st.turns, len(st.traces), st.no_quiescence)
+    if multi:
+        # thread-per-connection mode: the connections share nothing, so each one is run ALONE (default schedule) and
+        # the observations are merged; the merged outcome must be one the multiplexing modes can show as well
+        cl, og, died = [], {}, False
+        ex = turns = 0
+        for c in base.clients:
+            one = remode(base, 'threaded')
+            one.clients = [dict(c, start_turn=0)]
+            one.name = '%s/alone-c%d' % (one.name, base.clients.index(c))
+            w1 = netmc.execute(one, ())
+            ex += 1
+            turns += w1.turn
+            o1 = observe(w1)
+            cl += list(o1[0])
+            for a, v in o1[1]:
+                og.setdefault(a, []).extend(v)
+            died = died or o1[2]
+        merged = (tuple(cl), tuple(sorted((a, tuple(sorted(v))) for a, v in og.items())), died)
+        stats['threaded'] = (ex, turns, 1, 0)
+
+        def norm(o):
+            return (o[0], tuple(sorted((a, tuple(sorted(v))) for a, v in o[1])), o[2])
+        if merged not in {norm(o) for o in res['local']}:
+            lo = sorted(res['local'].keys(), key=repr)[0]
+            res_v = {'mode': 'threaded', 'only_in_threaded': [(summarize(merged), [])],
+                     'only_in_local': [(summarize(lo), res['local'][lo])]}
+        else:
+            res_v = None
     viol = []
+    if multi and res_v:
+        viol.append(res_v)
     ref = set(res['local'].keys())
     for mode in modes[1:]:
         cur = set(res[mode].keys())
